@@ -41,9 +41,10 @@ def const_bounded(facts, want_roots=None):
 
 def run(ctx):
     rep = Report(PID, 'other',
-                 'Three guard rules (LIN-1 length cap of the memcmp-confirming vector searcher, LIN-2 every Rabin-Karp '
+                 'Guard rules (LIN-1 length cap of the memcmp-confirming vector searcher, LIN-2 every Rabin-Karp '
                  'call guarded by a constant length bound, LIN-3 adaptive prefilter shut-off present and consulted), '
-                 'decided by dominance + derived-from queries on MIR. These are NECESSARY conditions for linear work; '
+                 'decided by dominance + derived-from queries on MIR, plus LIN-4 from the E2 engine: every constructed large-period '
+                 'Two-Way shift is >= len/2 and every constructed vector searcher has its needle length capped by a constant. These are NECESSARY conditions for linear work; '
                  'this check does NOT bound executed steps, does not decide linearity of Two-Way (period memory) or of '
                  'preprocessing, and gives no constant.',
                  trusted_base=['rustc nightly MIR', 'mcsa exporter', 'dominator computation'],
@@ -215,4 +216,18 @@ def run(ctx):
         rep.add('LIN-1/cap-same-in-all-configs', 'do_packed_search', True, detail=f"{caps}", nontrivial=False)
     rep.extra['configs'] = cfgs
     rep.extra['length_cap'] = caps
+    # ---------------- LIN-4 (from the E2 engine, debug configurations): the two relations the linear-work argument uses
+    #   * the large-period Two-Way shift is at least half the needle (a failed left part moves >= len/2)
+    #   * a memcmp-confirming vector searcher is only ever built for needles whose length a constant caps (32 today)
+    from . import e2common
+    sites, _, errs = e2common.root_table(ctx, cfgs, r'^arch::all::twoway::(Finder|FinderRev)::new$|^memmem::FinderBuilder::build_forward_with_ranker', ('REL-POST',))
+    for cfg_, root_, err_ in errs:
+        rep.add('E2-ROOT', root_, False, cfg=cfg_, detail=err_.splitlines()[0][:300])
+    n4 = 0
+    for (kind, path, role), s_ in sorted(sites.items()):
+        if '2 * shift >= needle.len()' in role or 'is capped by a constant' in role:
+            n4 += 1
+            det = s_['detail'] if s_['ok'] else '; '.join(f"[{c}] root {r} ({v}): {d}" for c, r, v, d in s_['fail'][:2])
+            rep.add('LIN-4/' + kind, f"{path}|{role}", s_['ok'], where=s_['loc'], cfg=','.join(sorted(s_['cfgs'])), detail=(det or '')[:500])
+    rep.floor('LIN-4-sites', n4, 3)
     return rep
